@@ -58,6 +58,17 @@ def build(family, n, cold):
         b = let(Box, boxes, name="b")
         q = an(entity(x, exists(x, in_(x, b.items))))     # the documented idiom: one result per x that is in some box
         qs = {1: q, 2: q}
+    elif family == "rule_grow":
+        # a rule written incrementally: the base rule is evaluated once, THEN one refinement is added; every later evaluation
+        # of the extended rule returns the same (the per-evaluation state of the new branch is reset like everyone else's)
+        q = an(entity(v := let(T0, None), x.n >= 0))
+        with q:
+            Add(v, inference(T0)(p=x))
+        list(q.evaluate())
+        with q:
+            with refinement(x.n >= 2):
+                Add(v, inference(T1)(p=x))
+        qs = {1: q, 2: q}
     elif family in ("rule_refine", "rule_alt", "rule_next"):
         # a rule query: every element gets exactly one conclusion, so the k-th result belongs to the k-th element
         q = an(entity(v := let(T0, None), x.n >= 0))
@@ -87,6 +98,13 @@ def build(family, n, cold):
         # ... as one of several conditions (its parent is a logical operator), or as the SOLE condition (conditions root)
         qs = {1: an(entity(x, node == True)),
               2: an(entity(x, node)) if family == "shared_mapping_root" else an(entity(x, and_(node, x.n >= 0)))}
+    elif family == "empty":
+        # a variable whose domain is EMPTY after let()'s type filter (no candidate is an E), shared by two queries: every
+        # evaluation - the first, a repeated one, one of the other query - yields nothing and stops (IterSched with N = 0)
+        others = [F(i + 1, True) for i in range(3)]
+        x = let(E, (o for o in others) if cold else list(others), name="x")
+        q = an(entity(x, x.n >= 0))
+        qs = {1: q, 2: an(set_of([x], x.n < 100))}
     elif family == "independent":
         objs2 = [E(i + 1) for i in range(n)]
         y = let(E, (o for o in objs2) if cold else list(objs2), name="y")
@@ -122,7 +140,10 @@ def handle(case):
     qs, x = build(case["family"], case["n"], not case["warm"])
     if case["warm"]:
         for q in {id(q): q for q in qs.values()}.values():
-            list(q.evaluate())
+            try:
+                list(q.evaluate())
+            except Exception as ex:          # an earlier complete evaluation of a query must not fail: reported as the observation
+                return {"obs": ["warm-up evaluation raised " + type(ex).__name__] * len(case["h"]), "alone": {str(k): v for k, v in alone.items()}}
     its = {}
     obs = []
     for st in case["h"]:
@@ -132,7 +153,7 @@ def handle(case):
             obs.append("-")
         elif a == "abandon":
             it = its.pop(i, None)
-            if it is not None:
+            if it is not None and hasattr(it, "close"):          # abandoning = dropping the iterator (closing it if it is a generator)
                 it.close()
             obs.append("-")
         else:
